@@ -1,0 +1,14 @@
+//go:build verif
+
+// Contracts (machine-checked by /verif/engine, see /verif/DESIGN.md). Comment-only file.
+package lite
+
+// Cleaning a virtual host: everything from the first Forge separator (NUL) on is dropped, then everything from the first
+// TCPShield separator ("///") on, then surrounding dots.
+//@ func ClearVirtualHost
+//@   props C17 C29
+//@   modifies nothing
+//@   at-call Split#1 as s1: assert streq(arg0, name) && streq(arg1, "\x00")
+//@   at-call Split#2 as s2: assert called(s1) && streq(arg0, res(s1)[0]) && streq(arg1, "///")
+//@   at-call Trim as tr: assert called(s2) && streq(arg0, res(s2)[0]) && streq(arg1, ".")
+//@   ensures [forge-then-tcpshield-then-dots] called(tr) && streq(result, res(tr))
